@@ -53,11 +53,11 @@ func (g *Gen) genSyncMessages(sc *Scenario, heads []*Node) {
 					continue
 				}
 				seenPos[key] = true
-				if (pos+hi)%2 == 0 || pos < 4 {
+				if (pos+hi+g.Salt)%2 == 0 || pos < 4 {
 					g.syncCase("honest", v, subnet, w.MakeSyncMessage(cur, head.Root, vi, w.KeyOf(vi), common.DOMAIN_SYNC_COMMITTEE))
 				}
 			}
-			pos := (int(cur) * 5) % len(members)
+			pos := (int(cur)*5 + g.Salt) % len(members)
 			vi := members[pos]
 			subnet := uint64(pos) / subSize
 			k := w.KeyOf(vi)
